@@ -747,6 +747,23 @@ class Models:
                 return Redirect(f, (v,))
         return f"<{t.__name__} object>"
 
+    def format_str_spec(self, W, v, spec):
+        """format(str, spec) for a symbolic string and a concrete spec [[fill]align][width][.precision][s]: CPython validates
+        the spec (a sign, '=' alignment, ... raise ValueError for strings) on a stand-in string of the same length"""
+        if not isinstance(spec, str):
+            spec = self.I.concretize_str(W, spec) if hasattr(self.I, "concretize_str") else None
+            if spec is None:
+                raise Unsupported("symbolic format spec")
+        cs = chars(v)
+        try:
+            shape = format("\x00" * len(cs), spec)
+        except ValueError as ex:
+            raise PyRaise(ValueError(str(ex)))
+        # the stand-in shows where the (possibly truncated) value sits inside the padding
+        n = shape.count("\x00")
+        i = shape.index("\x00") if n else len(shape)
+        return mk(tuple(shape[:i]) + tuple(cs[:n]) + tuple(shape[i + n:]))
+
     def format_value(self, W, v, conv, spec):
         if conv == 2:
             r = self.py_repr(W, v)
@@ -760,12 +777,16 @@ class Models:
             else:
                 if all_concrete(v, spec) and isinstance(v, (int, float, str)):
                     return native(format, v, spec)
+                if is_strlike(v):
+                    return self.format_str_spec(W, v, spec)
                 raise Unsupported("format spec on symbolic value")
         if isinstance(r, Redirect):
             return r
         if spec not in ("", None):
             if all_concrete(r, spec):
                 return native(format, r, spec)
+            if is_strlike(r):
+                return self.format_str_spec(W, r, spec)
             raise Unsupported("format spec on symbolic value")
         return r
 
